@@ -14,6 +14,8 @@ import (
 	"strings"
 	"time"
 
+	"golang.org/x/tools/go/ssa"
+
 	"verif/engine/symgo"
 )
 
@@ -48,6 +50,7 @@ func main() {
 	verbose := flag.Bool("v", false, "verbose")
 	maxPaths := flag.Int("maxpaths", 20000, "path limit per harness")
 	seed := flag.Int64("seed", 1, "seed")
+	budget := flag.Int("budget", 0, "per-obligation solver budget in ms (0 = tier default)")
 	flag.Parse()
 
 	if *nativeReplay != "" {
@@ -84,6 +87,9 @@ func main() {
 	} else {
 		opts.BudgetsMs = []int{60000}
 	}
+	if *budget > 0 {
+		opts.BudgetsMs = []int{*budget}
+	}
 	nsolve := runtime.NumCPU() / 2
 	if nsolve < 2 {
 		nsolve = 2
@@ -95,16 +101,9 @@ func main() {
 		json.Unmarshal(b, &kf)
 	}
 	var results []*symgo.HarnessResult
-	for _, h := range hs {
+	runOne := func(h *ssa.Function) *symgo.HarnessResult {
 		name := h.Name()
-		if re != nil && !re.MatchString(name) {
-			continue
-		}
-		if strings.Contains(name, "_T_") && *tier != "thorough" {
-			continue
-		}
 		hr := eng.RunHarness(h, opts)
-		results = append(results, hr)
 		counts := map[string]int{}
 		for _, r := range hr.Results {
 			counts[r.Verdict]++
@@ -121,6 +120,51 @@ func main() {
 				fmt.Printf("    path %d %-30s %-12s %-22s %.2fs %s\n", r.Path, r.ID, r.Verdict, r.Solver, r.Seconds, r.Note)
 			}
 		}
+		return hr
+	}
+	lemmaFailed := false
+	for _, h := range hs {
+		name := h.Name()
+		if re != nil && !re.MatchString(name) {
+			continue
+		}
+		if strings.Contains(name, "_T_") && *tier != "thorough" {
+			continue
+		}
+		if strings.Contains(name, "_FB_") {
+			continue
+		}
+		hr := runOne(h)
+		results = append(results, hr)
+		for _, r := range hr.Results {
+			if r.Kind == "lemma" && r.Verdict == "unconfirmed" {
+				lemmaFailed = true
+			}
+		}
+	}
+	if lemmaFailed {
+		// a stage lemma was refuted: look for an end-to-end, natively replayable counterexample
+		fmt.Println("[symgo] stage lemma refuted: running the end-to-end fallback harnesses to obtain a replayable counterexample")
+		save := opts.BudgetsMs
+		opts.BudgetsMs = []int{30000}
+		for _, h := range hs {
+			if !strings.Contains(h.Name(), "_FB_") {
+				continue
+			}
+			hr := runOne(h)
+			// only confirmed violations of a fallback harness count
+			var keep []symgo.OblResult
+			for _, r := range hr.Results {
+				if r.Verdict == "violated" {
+					keep = append(keep, r)
+				}
+			}
+			hr.Results = keep
+			hr.EngineErrs = nil
+			hr.PathLimit = false
+			results = append(results, hr)
+		}
+		opts.BudgetsMs = save
 	}
 	code := report(*prop, *tier, *seed, results, kf, *out, time.Since(t0).Seconds(), eng)
 	os.Exit(code)
@@ -156,17 +200,17 @@ func report(prop, tier string, seed int64, results []*symgo.HarnessResult, kf []
 	}
 	var (
 		total, discharged, violated, unknown, unconfirmed, witnessOK, vacuous, symbolicObl, paths int
-		solverSecs                                                                          float64
-		samples                                                                             []sample
-		funcs                                                                               = map[string]int{}
-		notCovered                                                                          []string
-		harnessNames                                                                        []string
-		stubs                                                                               = map[string]string{}
-		violations                                                                          []symgo.OblResult
-		knownSeen                                                                           = map[string]bool{}
-		distinct                                                                            = map[string]bool{}
-		queriesBySolver                                                                     = map[string]int{}
-		steps                                                                               int64
+		solverSecs                                                                                float64
+		samples                                                                                   []sample
+		funcs                                                                                     = map[string]int{}
+		notCovered                                                                                []string
+		harnessNames                                                                              []string
+		stubs                                                                                     = map[string]string{}
+		violations                                                                                []symgo.OblResult
+		knownSeen                                                                                 = map[string]bool{}
+		distinct                                                                                  = map[string]bool{}
+		queriesBySolver                                                                           = map[string]int{}
+		steps                                                                                     int64
 	)
 	exit := 0
 	for _, hr := range results {
@@ -232,7 +276,16 @@ func report(prop, tier string, seed int64, results []*symgo.HarnessResult, kf []
 		}
 		_ = hadWitness
 	}
+	seenReplay := map[string]bool{}
 	for _, v := range violations {
+		exit = 1
+		if seenReplay[v.Replay] {
+			continue
+		}
+		seenReplay[v.Replay] = true
+		if len(v.Model) > 12 {
+			v.Model = map[string]string{"...": fmt.Sprintf("%d inputs, see replay file", len(v.Model))}
+		}
 		fmt.Printf("VIOLATION property=%s replay=%s\n", prop, v.Replay)
 		fmt.Printf("  harness=%s obligation=%s kind=%s where=%s model=%v %s\n", v.Harness, v.ID, v.Kind, v.Where, v.Model, v.Note)
 		exit = 1
@@ -276,30 +329,30 @@ func report(prop, tier string, seed int64, results []*symgo.HarnessResult, kf []
 		"seed":        seed,
 		"level":       "model_checking",
 		"coverage": map[string]interface{}{
-			"evaluations":              total,
-			"distinct_nontrivial":      len(distinct),
-			"rule":                     "one evaluation = one solver-decided obligation (assertion, implicit run-time check, unwinding/allocation check or reachability witness) on one explored path of a harness; it is non-trivial when its formula contains at least one free symbolic variable; distinct = distinct (harness, obligation id, location)",
-			"samples":                  samples,
-			"obligations":              total,
-			"discharged":               discharged,
-			"violated":                 violated,
-			"unknown":                  unknown,
-			"unconfirmed":              unconfirmed,
-			"reachability_witnesses":   witnessOK,
-			"vacuous":                  vacuous,
-			"symbolic_obligations":     symbolicObl,
-			"paths_explored":           paths,
-			"ssa_instructions_stepped": steps,
-			"harnesses":                harnessNames,
-			"functions_encoded":        fl,
-			"stubs":                    stubs,
-			"not_covered":              notCovered,
-			"solver_seconds":           solverSecs,
+			"evaluations":                total,
+			"distinct_nontrivial":        len(distinct),
+			"rule":                       "one evaluation = one solver-decided obligation (assertion, implicit run-time check, unwinding/allocation check or reachability witness) on one explored path of a harness; it is non-trivial when its formula contains at least one free symbolic variable; distinct = distinct (harness, obligation id, location)",
+			"samples":                    samples,
+			"obligations":                total,
+			"discharged":                 discharged,
+			"violated":                   violated,
+			"unknown":                    unknown,
+			"unconfirmed":                unconfirmed,
+			"reachability_witnesses":     witnessOK,
+			"vacuous":                    vacuous,
+			"symbolic_obligations":       symbolicObl,
+			"paths_explored":             paths,
+			"ssa_instructions_stepped":   steps,
+			"harnesses":                  harnessNames,
+			"functions_encoded":          fl,
+			"stubs":                      stubs,
+			"not_covered":                notCovered,
+			"solver_seconds":             solverSecs,
 			"queries_by_deciding_solver": queriesBySolver,
-			"solver_processes":         solverStats,
-			"ssa_load_seconds":         eng.LoadSecs,
-			"exhaustive":               false,
-			"explanation":              "bounded symbolic execution of the real functions from go/ssa; every obligation decided by an SMT solver for all values inside the bounds stated in the harness",
+			"solver_processes":           solverStats,
+			"ssa_load_seconds":           eng.LoadSecs,
+			"exhaustive":                 false,
+			"explanation":                "bounded symbolic execution of the real functions from go/ssa; every obligation decided by an SMT solver for all values inside the bounds stated in the harness",
 		},
 		"assumptions": []string{
 			"go/ssa lowering of /repo's current tree (x/tools v0.29.0) and the engine's semantics of SSA instructions and intrinsics",
